@@ -2,6 +2,7 @@ package checks
 
 import (
 	"fmt"
+	"github.com/lib/pq/oid"
 	"math/big"
 	"runtime/metrics"
 	"strings"
@@ -20,7 +21,7 @@ type c20 struct{ base }
 
 func init() {
 	core.Register(c20{base{id: "C20", level: "exploration", quickB: 8, thoroughB: 32,
-		rule: "query strings: exhaustive over all marker sequences of length <= 4 from {$0,$1,$2,$3,$5,$9,$10,?} with 3 separators; huge indexes {65534,65535,65536,2^31,2^32,2^63-1,2^63,2^64,40 digits}; queries with 60000-140000 marker occurrences (more than the limit) whose highest index appears anywhere, including after the 65535th occurrence; random SQL-like text with quotes, $$, $x, $1a, unicode. ParseParameters is called directly in an isolated child process (crash oracle) with a TotalAlloc delta bound, compared with an independent hand-written scanner (big-integer indexes), and through the wire: Parse + Describe-statement must announce exactly the returned length. Non-trivial = has a gap, descending or repeated index, index above marker count, huge index or mixed styles; distinct = normalised marker sequence.",
+		rule:        "query strings: exhaustive over all marker sequences of length <= 4 from {$0,$1,$2,$3,$5,$9,$10,?} with 3 separators; huge indexes {65534,65535,65536,2^31,2^32,2^63-1,2^63,2^64,40 digits}; queries with 60000-140000 marker occurrences (more than the limit) whose highest index appears anywhere, including after the 65535th occurrence; random SQL-like text with quotes, $$, $x, $1a, unicode. ParseParameters is called directly in an isolated child process (crash oracle) with a TotalAlloc delta bound, compared with an independent hand-written scanner (big-integer indexes), and through the wire: Parse + Describe-statement must announce exactly the returned length. Non-trivial = has a gap, descending or repeated index, index above marker count, huge index or mixed styles; distinct = normalised marker sequence.",
 		need:        []string{"direct_calls", "dollar_only_compared", "question_only_compared", "huge_index_queries", "describe_counts_compared", "gap_or_descending", "concurrent_call_rounds"},
 		assumptions: append([]string{"mixed $n/? queries and indexes above 65535 are judged for totality, result size <= 65535, zero OIDs and bounded allocation only"}, commonAssumptions...)}})
 }
@@ -221,8 +222,16 @@ func (ch c20) Run(c *core.Ctx) {
 			}
 		}
 		if nonzero {
-			c.Violate("oid", "placeholder with a specified type", fmt.Sprintf("query %q", trim(q, 100)), cs)
+			c.Violate("oid", "placeholder with a specified type (the list is the caller's own: an earlier caller typed its list in place)", fmt.Sprintf("query %q", trim(q, 100)), cs)
 			continue
+		}
+		// the returned list belongs to the caller, who may go on to type it in place; no later result
+		// may be affected (checked by the zero-OID rule above on every following call)
+		if idx%3 == 0 {
+			for i := range res {
+				res[i] = oid.Oid(20 + i%7)
+			}
+			c.Count("results_typed_in_place", 1)
 		}
 		switch {
 		case nd > 0 && nq == 0 && huge:
